@@ -96,7 +96,7 @@ def havoc_cell(st, arr, base="hv"):
 
 
 def array_read(st, arr, idx):
-    h = st.heap[arr.cell]
+    h = arr.snap if arr.snap is not None else st.heap[arr.cell]
     full = list(arr.fixed) + list(idx)
     if arr.dt == "f":
         return SFloat(sel(h[0], full), sel(h[1], full))
